@@ -102,6 +102,8 @@ def generate(rseed, tier='quick'):
     elif knobs['faults']:
       cands.append(('validate', 0.1))
     cands.append(('export', 0.25))
+    if knobs['faults'] and ops[q]['as'] == 'path':
+      cands.append(('clobber', 0.3))
     if has_recipe[1 - q]:
       cands.append(('load_other', 0.35))
     if shared_recipes:
@@ -193,6 +195,8 @@ def generate(rseed, tier='quick'):
       ops.append({'op': 'validate', 'q': q, 'data': r.choice(ds + [None]),
                   'metric': r.choice(['mse', 'median_diff_ratio']), 'none_key': r.random() < 0.3,
                   'reference_kernel': r.random() < 0.25})
+    elif k == 'clobber':
+      ops.append({'op': 'clobber_file', 'q': q})
     else:
       ops.append({'op': 'export', 'q': q})
   return {'v': 1, 'property': PROP, 'run_seed': rseed, 'knobs': knobs,
@@ -267,13 +271,11 @@ def signature_key(mbytes):
 def make_quantizer(how, mbytes, mdesc, recipe_arg, scratch, shared=None):
   from ai_edge_quantizer import quantizer
   if how == 'path':
-    if mdesc['kind'] == 'corpus':
-      arg = modelgen.model_path(mdesc)
-    else:
-      arg = os.path.join(scratch, 'model-%s.tflite' % core.digest(mdesc)[:10])
-      if not os.path.exists(arg):
-        with open(arg, 'wb') as f:
-          f.write(mbytes)
+    # always a private copy: the run may overwrite it later (clobber_file)
+    make_quantizer.counter = getattr(make_quantizer, 'counter', 0) + 1
+    arg = os.path.join(scratch, 'model-%s-%d.tflite' % (core.digest(mdesc)[:10], make_quantizer.counter))
+    with open(arg, 'wb') as f:
+      f.write(mbytes)
   elif how == 'bytes':
     arg = bytes(mbytes)
   else:
@@ -352,7 +354,8 @@ def execute(doc):
         continue
       if op['as'] == 'bytearray' and shared is None:
         owned.add('model:q%d@%d' % (op['q'], step), arg, 'model')
-      qs[op['q']] = {'obj': qobj, 'model': mi, 'calls': rcall, 'how': op['as'], 'result': None}
+      qs[op['q']] = {'obj': qobj, 'model': mi, 'calls': rcall, 'how': op['as'], 'result': None,
+                     'path': arg if op['as'] == 'path' else None}
       rec.event(step, 'new', 'ok')
     elif kind in ('update', 'load'):
       Q = qs.get(op['q'])
@@ -527,6 +530,17 @@ def execute(doc):
       except Exception as e:  # pylint: disable=broad-except
         rec.event(step, 'validate', 'raised:' + harness.exc_class(e))
       call = 'validate()'
+    elif kind == 'clobber_file':
+      # the file the Quantizer was constructed from is overwritten by the user afterwards; the
+      # model of the Quantizer is the one it was constructed with
+      Q = qs.get(op['q'])
+      if Q is None or not Q.get('path'):
+        continue
+      _, other = modelgen.get_model({'kind': 'gen', 'seed': 424242, 'max_ops': 2})
+      with open(Q['path'], 'wb') as f:
+        f.write(other)
+      rec.fault('model_file_overwritten')
+      rec.event(step, 'clobber_file', 'ok')
     elif kind == 'export':
       Q = qs.get(op['q'])
       if Q is None:
